@@ -456,7 +456,8 @@ func checkDecodeTable(c *Ctx) {
 		}
 		key := "DecodeMessage:case:" + n
 		var alloc *ssa.Alloc
-		allInstrs(dec, func(in ssa.Instruction) {
+		// the switch over the type tag may sit in a helper the reference tree does not have (summary.go)
+		allInstrsDeep(dec, nil, func(in ssa.Instruction) {
 			bo, ok := in.(*ssa.BinOp)
 			if !ok || bo.Op != token.EQL {
 				return
@@ -468,7 +469,7 @@ func checkDecodeTable(c *Ctx) {
 			if typVal != nil && !backSlice(bo.X).has(typVal) {
 				return
 			}
-			for _, t := range boolTestsOf(dec, bo) {
+			for _, t := range boolTestsOf(bo.Parent(), bo) {
 				for _, i2 := range t.TrueSucc.Instrs {
 					if a, ok := i2.(*ssa.Alloc); ok && a.Heap {
 						alloc = a
@@ -501,13 +502,22 @@ func checkDecodeTable(c *Ctx) {
 	{
 		key := "EncodeMessage:prefix-is-own-type"
 		ok := false
-		for _, cl := range callsIn(enc, pkgProto+".msgTypeToBytes") {
-			for v := range backSlice(cl.Call.Args[0]).vals {
+		// the two prefix bytes come from msgTypeToBytes(msg.MsgType()) or from a direct big-endian
+		// PutUint16 of the same value (the helper inlined)
+		allInstrsDeep(enc, nil, func(in ssa.Instruction) {
+			cl, isC := in.(*ssa.Call)
+			if !isC || len(cl.Call.Args) == 0 {
+				return
+			}
+			if !isCall(cl, pkgProto+".msgTypeToBytes") && !(callName(cl) == "PutUint16" && strings.Contains(calleeID(cl), "encoding/binary.bigEndian")) {
+				return
+			}
+			for v := range backSlice(cl.Call.Args[len(cl.Call.Args)-1]).vals {
 				if inv, isCall := v.(*ssa.Call); isCall && inv.Call.IsInvoke() && inv.Call.Method.Name() == "MsgType" && inv.Call.Value == ssa.Value(enc.Params[0]) {
 					ok = true
 				}
 			}
-		}
+		})
 		// prefix comes first in the join
 		if ok {
 			c.OK(rule, key, c.Pos(enc.Pos()), "prefix = msgTypeToBytes(msg.MsgType())")
